@@ -67,6 +67,7 @@ func allProps() []*Prop {
 	return []*Prop{
 		propC01(),
 		propC03(),
+		propC10(),
 		propC13(),
 		propC14(),
 		propC15(),
@@ -536,5 +537,39 @@ func propC18() *Prop {
 			"thorough": "additionally all sections simultaneously (enums reduced to valid/invalid) - the validator returns on the first error, so combinations matter",
 		},
 		Outside: []string{"YAML syntax, file loading", "TLS file existence"},
+	}
+}
+
+func propC10() *Prop {
+	return &Prop{
+		ID: "C10", Title: "Admin API access control: bearer token and IP allow/deny fail closed",
+		Jobs: func(tier string) []*sym.Job {
+			var js []*sym.Job
+			lens := []int64{0, 6, 7, 9, 10, 11}
+			if tier == "thorough" {
+				lens = []int64{0, 1, 5, 6, 7, 8, 9, 10, 11, 12, 14}
+			}
+			for _, l := range lens {
+				js = append(js, job(fmt.Sprintf("C10a/bearer[Authorization of %d bytes]", l), "adminapi", "VerifC10Bearer", l))
+			}
+			shapes := [][2]int64{{0, 0}, {1, 0}, {0, 1}, {1, 1}, {2, 0}, {0, 2}}
+			if tier == "thorough" {
+				shapes = append(shapes, [2]int64{2, 1}, [2]int64{1, 2}, [2]int64{2, 2})
+			}
+			for _, sh := range shapes {
+				j := job(fmt.Sprintf("C10b/filter-logic[allow=%d,deny=%d]", sh[0], sh[1]), "adminapi", "VerifC10Filter", sh[0], sh[1], 1)
+				j.MaxPaths = 3000000
+				js = append(js, j)
+			}
+			js = append(js, job("C10c/header-independence", "adminapi", "VerifC10Headers"))
+			js = append(js, job("C10d/fail-closed", "adminapi", "VerifC10FailClosed"))
+			return js
+		},
+		Assumptions: append([]string{"http.ServeMux is modelled as exact-path dispatch over the registered patterns (Helios registers only exact, slash-free-suffix patterns); encoding/json Decode/Encode are structure-only models (decode fills the target struct from the concrete JSON text; encode writes an opaque body)", "net.ParseIP / ParseCIDR on concrete text are evaluated natively; a symbolic peer is a marker string that the ParseIP model resolves to symbolic address bytes of the documented shape (16-byte IPv4-in-IPv6, 16-byte IPv6, or nil); IPNet.Contains and IP.To4 run from their real SSA bodies", "networks: IPv4 prefixes {0,8,24,31,32}, IPv6 prefixes {0,64,127,128}, arbitrary base bytes (IPv6: six symbolic bytes, the rest zero); IPv4-mapped IPv6 network entries excluded (Go treats them as the embedded IPv4 network)", "the balancer behind the API is built by the real NewLoadBalancer"}, commonAssumptions...),
+		Bounds: map[string]string{
+			"quick":    "Authorization values of 0/6/7/9/10/11 arbitrary bytes (token is 3 bytes: the exact value has 10), present/absent, optional valid second value, 7 paths x 3 methods x 4 bodies; filter lists up to 2 entries in total; peers IPv4 / IPv6 / IPv4-mapped / unparsable",
+			"thorough": "more Authorization lengths; lists up to 2+2",
+		},
+		Outside: []string{"full 16 symbolic bytes for IPv6 (sparse bytes only)", "ServeMux pattern matching beyond exact paths", "JSON syntax"},
 	}
 }
